@@ -27,8 +27,10 @@ COMPONENTS = {
              "kv.KVGarbageCollector", "kv.encode_event/decode_event", "msgpack (pure Python)"],
     "stub": ["LMDB engine (fake; also the fault seam)", "writer thread (stepped actor)"],
 }
-ASSUMPTIONS = ["expected index keys are computed with the repository's own Index.write on a recording "
-               "transaction, so only incoherence is reported, not layout",
+ASSUMPTIONS = ["two statements of the expected keys: (a) the repository's own Index.write on a recording "
+               "transaction decides what counts as dangling / wrong value, (b) an independent model of the documented "
+               "layout decides what must be there at least: created_at, kind, author, author+kind, every "
+               "single-letter tag with a string value, and the expiration tag",
                "whoosh FTS index disabled (as shipped) and not covered"]
 SHRINK = [["ops"]]
 
@@ -88,6 +90,28 @@ class Recorder:
         return True
 
 
+import re as _re
+
+_LETTER = _re.compile(r"[A-Za-z]\Z")
+
+
+def required_keys(row):
+    """independent statement of 'appears under each of its attributes' from the documented key layout
+    (0x01 created | 0x02 kind | 0x03 pubkey | 0x04 pubkey+kind | 0x09 tag, each suffixed 0x00 created_at(4)
+    0x00 id(32)); required = the attributes NIP-01 makes queryable (single-letter tags with string values)
+    plus the expiration tag the collector relies on; what else the repo chooses to index is its business"""
+    idb, created, kind, pub, tags = bytes(row[1]), row[2], row[3], bytes(row[4]), row[6]
+    ct = created.to_bytes(4, "big")
+    k4 = kind.to_bytes(4, "big")
+    suffix = b"\x00" + ct + b"\x00" + idb
+    keys = {b"\x01" + ct + suffix: "created_at", b"\x02" + k4 + suffix: "kind", b"\x03" + pub + suffix: "author",
+            b"\x04" + pub + b"\x00" + k4 + suffix: "author+kind"}
+    for t in tags:
+        if len(t) >= 2 and isinstance(t[0], str) and isinstance(t[1], str) and (_LETTER.match(t[0]) or t[0] == "expiration"):
+            keys[b"\x09" + t[0].encode() + b"\x00" + t[1].encode() + suffix] = "tag:" + t[0]
+    return keys
+
+
 def coherence(kv, keys, data):
     """compare the keyspace with what the repo's index writers would produce for its records"""
     from pip._vendor import msgpack
@@ -107,6 +131,12 @@ def coherence(kv, keys, data):
         if len(k) != 33 or ev is None or k[1:] != ev.id_bytes:
             problems.append(("primary-key-mismatch", k.hex()[:20], ""))
             continue
+        try:
+            for rk, what in required_keys(row).items():
+                if rk not in data:
+                    problems.append(("unindexed", what, rk.hex()[:40]))
+        except (OverflowError, ValueError, TypeError):
+            pass
         for name, index in kv.INDEXES.items():
             if not index.enabled or name == "search":
                 continue
